@@ -3,6 +3,7 @@
 // Stub: time. The simulated step clock is ticked by the XSIMD_VERIF_LOOP_TICK hook in the 11 data-dependent
 // loops; a CPU-time watchdog is the backstop for code without hooks.
 #include "funcs.hpp"
+#include "nearpi.hpp"
 #include "tickclock.hpp"
 
 #include "../../sim/core.hpp"
@@ -32,6 +33,7 @@ namespace
 
     Counter c_calls("sim", "calls"), c_ticks("sim", "ticks(simulated_time)");
     Counter c_blocks("sim", "basic_blocks_executed"), p_over10k_blocks("probe", "call_executed_more_than_2000_basic_blocks"), cl_blocks("info", "block_budget_exceeded(only_on_violation)");
+    Counter p_nearpi("probe", "principal_lane_near_a_multiple_of_pi/2(continued_fraction_worst_case)");
     Counter cl_budget("clause", "call_returned_within_tick_and_block_budget"), cl_backstop("clause", "plan_finished_under_cpu_watchdog");
     Counter p_tick_calls("probe", "calls_that_reached_a_tick_site"), p_mixed("probe", "calls_with_mixed_lane_vectors"), p_special("probe", "calls_with_inf_nan_or_denormal_principal"),
         p_huge("probe", "calls_with_principal_magnitude_ge_2^24"), p_over100("probe", "calls_with_more_than_100_ticks");
@@ -67,6 +69,7 @@ namespace
         bool last_block_exceeded = false;
         uint64_t max_ops = 64;
         uint64_t watchdog_ms = 400;
+        std::vector<uint64_t> nearpi_f32, nearpi_f64; // hard cases of trigonometric argument reduction (nearpi.hpp)
         std::string only_fn;
 
         C14Harness()
@@ -82,6 +85,8 @@ namespace
             register_avx512vnni_vbmi2(table);
             for (size_t i = 0; i < table.size(); ++i)
                 index[key(table[i])] = (int)i;
+            nearpi_table(true, nearpi_f32);
+            nearpi_table(false, nearpi_f64);
             struct sigaction sa;
             memset(&sa, 0, sizeof sa);
             sa.sa_handler = on_vtalrm;
@@ -162,9 +167,20 @@ namespace
             const uint64_t emax = (1ull << ebits) - 1;
             uint64_t sign = rng.coin();
             meta.sign = (int)sign;
-            meta.family = (int)rng.below(8);
+            meta.family = (int)rng.below(9);
             switch (meta.family)
             {
+            case 8: // unusually close to a multiple of pi/2, at every magnitude (continued-fraction worst cases, see nearpi.hpp)
+            {
+                const std::vector<uint64_t>& t = f32 ? nearpi_f32 : nearpi_f64;
+                uint64_t u = t[rng.below(t.size())];
+                if (rng.chance(1, 8))
+                    u = (uint64_t)((int64_t)u + rng.range(-2, 2)); // and their immediate neighbours
+                u |= sign << (ebits + mbits);
+                meta.binade = (int)((u >> mbits) & emax);
+                ++p_nearpi;
+                return u;
+            }
             case 0:
             case 1:
             case 2: // every binade equally likely, random mantissa
